@@ -256,6 +256,10 @@ func (c *Conn) Write(p []byte) (int, error) {
 		c.log("write", 0, c.injErr, p)
 		return 0, c.injErr
 	}
+	if c.Net && c.closed {
+		c.log("write", 0, errUseOfClosed, p)
+		return 0, errUseOfClosed
+	}
 	if c.Net && !c.wdl.IsZero() && time.Now().After(c.wdl) {
 		c.log("write", 0, os.ErrDeadlineExceeded, p)
 		return 0, os.ErrDeadlineExceeded
@@ -338,17 +342,29 @@ func (c *Conn) SetReadDeadline(t time.Time) error {
 		c.log("rdeadline", 0, c.injErr, nil)
 		return c.injErr
 	}
+	if c.Net && c.closed {
+		c.log("rdeadline", 0, errUseOfClosed, nil)
+		return errUseOfClosed
+	}
 	c.rdl = t
 	c.log("rdeadline", 0, nil, nil)
 	return nil
 }
 func (c *Conn) SetWriteDeadline(t time.Time) error {
 	c.mu.Lock()
+	if c.Net && c.closed { // a socket somebody closed: every further call on it fails
+		c.log("wdeadline", 0, errUseOfClosed, nil)
+		c.mu.Unlock()
+		return errUseOfClosed
+	}
 	c.wdl = t
 	c.log("wdeadline", 0, nil, nil)
 	c.mu.Unlock()
 	return nil
 }
+
+// errUseOfClosed is what a closed socket answers every further call with.
+var errUseOfClosed error = &net.OpError{Op: "use", Net: "verif", Err: net.ErrClosed}
 
 // Port is a scripted serial port: Conn without the net.Conn extras, optionally a Flusher.
 type Port struct{ C *Conn }
